@@ -113,6 +113,25 @@ def check_case(ename, flabel, pos, endian, align, res: JobResult, tier="quick"):
         ins.append(sc.model_decode(st, d, cfg, f"raw:{i}"))
     res.nontrivial += sum(1 for i in ins if i.status == "ok")
     _conf.conform(L, ins, res, viol)
+    if flabel == "[EOF]":
+        # a partial element at the end of the input: raising or ignoring it are both acceptable, but every element that is returned must be a whole,
+        # genuine element ("takes every remaining WHOLE element")
+        for inp in [i for i in ins if i.status == "ok" and i.vals is not None][:4]:
+            whole = inp.value["f"]
+            for extra in (b"\x81", b"\x81\x82", b"\x81\x82\x83\x84\x85"):
+                data = inp.data + extra
+                chk = sc.model_decode(st, data, cfg, "partial-tail")
+                if chk.status == "ok" and len(chk.value["f"]) != len(whole):
+                    continue  # the extra bytes form a whole element (variable-size elements): not a partial tail
+                for compiled, T in L.T.items():
+                    o = sc.parse(T, data)
+                    res.evaluations += 1
+                    res.transitions += 1
+                    if not o.ok:
+                        continue
+                    got = o.value.get("f")
+                    if not (len(got) <= len(whole) and same(got, whole[: len(got)])):
+                        viol("eof:partial-element-returned", f"in={data.hex()} (whole elements {whole!r} + {len(extra)} stray bytes): parsed f={got!r}", "compiled" if compiled else "interpreted", None)
     # element count / C order are part of value equality with the model's flat decoding
     if len(res.samples) < 2:
         res.samples.append({"definition": text, "endian": endian, "align": align, "inputs": len(ins), "first": ins[0].data.hex() if ins else ""})
